@@ -161,6 +161,10 @@ SPECIAL_REPLAY["hang"] = hang_replay
 def finish(ctx, wall, write=True):
     pid = ctx.pid
     for h in vlib.HANGS:
+        if h.get("probe") and not h.get("counted"):
+            h["counted"] = True
+            ctx.drift += 1
+            ctx.drift_notes.append({"probe_failed": h["hang"].get("msg"), "vh": " ".join(h["args"][:2])})
         if not h["handled"]:
             h["handled"] = True
             ctx.rejects.append({"tid": h["hang"].get("tid", 0), "kind": "hang", "vh_args": h["args"], "hang": h["hang"], "sig": "hang",
